@@ -43,6 +43,7 @@ type Check struct {
 	floor    int
 	Extra    map[string]any
 	Variants []string
+	loopSeen map[*ssa.BasicBlock]bool
 }
 
 func (c *Check) add(o *Obligation) *Obligation {
